@@ -63,7 +63,7 @@ func checkC19(e *Engine, r *Report) {
 			ops[n] = k
 		}
 	}
-	r.MinInstances("Operator constants", len(ops), 11)
+	r.MinInstances("Operator constants", len(ops), 6)
 	comparedIn := func(fn *ssa.Function) map[string]bool {
 		out := map[string]bool{}
 		AllInstrs(fn, func(in ssa.Instruction) {
@@ -134,7 +134,7 @@ func checkC19(e *Engine, r *Report) {
 		}
 		uses = append(uses, idxUse{in, k.Int64()})
 	})
-	r.MinInstances("constant Values[k] uses in Evaluate", len(uses), 4)
+	r.MinInstances("constant Values[k] uses in Evaluate", len(uses), 1)
 	needs := map[string]int64{} // operator -> minimal number of values Evaluate needs
 	for _, u := range uses {
 		for _, n := range names {
@@ -220,7 +220,7 @@ func checkC19(e *Engine, r *Report) {
 			r.Check("S6:evaluate-site@"+name, "R6+S6 validated implies safe", "Evaluate is called only at reviewed sites whose expressions are validated or built with the right arity", e.InstrPos(in), fn, ok, why, false)
 		})
 	}
-	r.MinInstances("Evaluate call sites", ns, 4)
+	r.MinInstances("Evaluate call sites", ns, 2)
 	// Config.Validate validates every configured expression and reports failures
 	if cv := r.Anchor(pkgCfgBL, "Config.Validate"); cv != nil {
 		valObj := e.objs(pkgExpr, "Expression.Validate")
@@ -359,7 +359,7 @@ func checkC19(e *Engine, r *Report) {
 				r.Check("S6:built-expression-arity@"+site, "R6+S6 validated implies safe", "an expression built in code gets as many values as its operator reads ("+strings.Join(opConsts, "/")+")", e.InstrPos(in), fn, ok2, why, true)
 			})
 		}
-		r.MinInstances("expressions built in code", nb, 5)
+		r.MinInstances("expressions built in code", nb, 2)
 	}
 
 	// ---- rule 3: negation duality ------------------------------------------------------
